@@ -437,7 +437,7 @@ class Gen(object):
             h = rng.choice(srcs + tgts)
             x, y = (None, h) if rng.random() < 0.5 else (h, None)
             return {'op': rng.choice(['relate', 'unrelate']), 'x': x, 'y': y, 'rel': self.relid(a), 'phrase': ''}
-        if not srcs or not tgts:
+        if (not srcs or not tgts) and mode != 'dead':
             return None
         if mode == 'valid':
             cand = []
@@ -454,6 +454,18 @@ class Gen(object):
                 return None
             s, t = rng.choice(cand)
             return self.link_op('relate', a, s, t)
+        if mode == 'dead':
+            # one operand is an instance that has been deleted: whatever the answer, it must not become reachable
+            dead_s = [h for h in self.dead if self.ref.kind_of(h).upper() == a['src'].upper()]
+            dead_t = [h for h in self.dead if self.ref.kind_of(h).upper() == a['tgt'].upper()]
+            cand = [(s, t) for s in dead_s for t in tgts] + [(s, t) for s in srcs for t in dead_t]
+            if not cand:
+                return None
+            s, t = rng.choice(cand)
+            op = self.link_op('relate', a, s, t)
+            op['dead'] = True
+            op['fault'] = 'F1'
+            return op
         if mode == 'dup':
             if not self.ref.pairs[i]:
                 return None
@@ -852,6 +864,8 @@ class Gen(object):
                 op = self.op_new(mode='bad')
             elif k == 'relate':
                 op = self.op_relate('valid')
+            elif k == 'relate_dead':
+                op = self.op_relate('dead')
             elif k == 'relate_n':
                 op = self.op_relate('valid', self.reflexive_one(pick=True)) if refl else None
             elif k == 'relate_dup':
@@ -923,6 +937,12 @@ class Gen(object):
                 continue
             for o in (op if isinstance(op, list) else [op]):
                 self.emit(o, actor)
+        if self.prop == 'C02' and self.dead and rng.random() < 0.3:
+            # the last word of some histories: a relate that names a deleted instance (last, because the answer of
+            # the implementation is a known finding and a run ends at its first violation)
+            op = self.op_relate('dead')
+            if op:
+                self.emit(op, 0)
         return {'prop': self.prop, 'engine': 'store', 'seed': self.seed, 'cfg': self.cfg, 'ops': self.ops}
 
 
@@ -1068,8 +1088,6 @@ def apply_ref(ref, op, gen_time=False, world=None):
             # referential arguments: only where the statements define the outcome (see DESIGN.md C02/C03)
             if any(n in sch.identifying(c['kind']) for n in given_refs):
                 raise Skip('referential argument that is also an identifying attribute')
-            if any(sp != sch.declared(c['kind'], sp) for sp, _ in op['kw'] if sch.declared(c['kind'], sp) in refs):
-                raise Skip('referential keyword under a non-declared spelling')
             for a in sch.assocs:
                 if a['src'].upper() == c['kind'].upper() and set(a['src_keys']) & set(given_refs) and \
                         (sch.reflexive(a) or a['src_phrase'] or a['tgt_phrase']):
@@ -1081,6 +1099,11 @@ def apply_ref(ref, op, gen_time=False, world=None):
             except RefError:
                 raise Skip('referential argument would overflow a single-valued end')
         return ('new', ref.new(c['kind'], op['h'], op['args'], op['kw']))
+    if k == 'relate' and op.get('dead'):
+        need(op['x'], alive=False), need(op['y'], alive=False)
+        if ref.rows[op['x']].alive and ref.rows[op['y']].alive:
+            raise Skip('both operands alive')
+        raise RefError('MetaException', 'relate with a deleted instance')
     if k in ('relate', 'unrelate'):
         x, y = need(op['x']), need(op['y'])
         f = ref.relate if k == 'relate' else ref.unrelate
